@@ -1473,11 +1473,13 @@ class NodeListComprehensionProduct:
         result = ValueList()
         localEnv = environment.newEnv()
         list1 = self.listExpr1.evaluate(environment)
-        list2 = self.listExpr2.evaluate(environment)
         values1 = getCollectionValue(list1, self.what1, self.pos)
-        values2 = getCollectionValue(list2, self.what2, self.pos)
         for listValue1 in values1:
             localEnv.put(self.identifier1, listValue1)
+            # like the equivalent nested loops: the second collection is
+            # evaluated for each element of the first and may refer to it
+            list2 = self.listExpr2.evaluate(localEnv)
+            values2 = getCollectionValue(list2, self.what2, self.pos)
             for listValue2 in values2:
                 localEnv.put(self.identifier2, listValue2)
                 if self.conditionExpr:
@@ -2125,11 +2127,13 @@ class NodeSetComprehensionProduct:
         result = ValueSet()
         localEnv = environment.newEnv()
         list1 = self.listExpr1.evaluate(environment)
-        list2 = self.listExpr2.evaluate(environment)
         values1 = getCollectionValue(list1, self.what1, self.pos)
-        values2 = getCollectionValue(list2, self.what2, self.pos)
         for value1 in values1:
             localEnv.put(self.identifier1, value1)
+            # like the equivalent nested loops: the second collection is
+            # evaluated for each element of the first and may refer to it
+            list2 = self.listExpr2.evaluate(localEnv)
+            values2 = getCollectionValue(list2, self.what2, self.pos)
             for value2 in values2:
                 localEnv.put(self.identifier2, value2)
                 if self.conditionExpr:
